@@ -16,7 +16,7 @@ def record(rnd):
     r = {}
     if rnd.random() < 0.85: r['a'] = rnd.choice(KEYS_A)
     if rnd.random() < 0.8: r['b'] = rnd.choice([0, 1, 2, 'x', 'y', None, [1], {'c': 1}])
-    if rnd.random() < 0.8: r['k'] = rnd.choice(['x', 'y', '', 'é', 'x', 'y', 1, None, '=1+1', '-5', '@home', '+x', ' x', 'x ', ' ', 'é\u00a0', '\tx', 'X'])
+    if rnd.random() < 0.8: r['k'] = rnd.choice(['x', 'y', '', 'é', 'x', 'y', 1, None, '=1+1', '-5', '@home', '+x', ' x', 'x ', ' ', 'é\u00a0', '\tx', 'X', '1.50', '1.5', '007', '7.0', '1e2', '100', '-0', '0'])
     if rnd.random() < 0.5:
         r['arr'] = [rnd.choice([{'a': rnd.randint(0, 2), 'k': rnd.choice(['x', 'y'])}, rnd.randint(0, 3), 'x', [1]])
                     for _ in range(rnd.randint(0, 3))]
@@ -60,7 +60,9 @@ SELECTS = ['.a', '.b=B', '.k', '(size .arr)=n', '.arr', '.', '(get . "a")=ga', '
            '(default .a .b 0)=d', '.b.c=bc', '.arr#0=first', '(map .arr .a)=as', '(filter .arr (= .k "x"))=xs', '.a=dup', '.k=dup',
            '(group_by .arr .k)=g', '(group_by .arr (stringify .a))=ga',
            # references to the values selected so far, by name (an unnamed selection is named by its text; a missing name gives nothing; of two equal names the ... the code decides, the model follows)
-           '/B/=rb', '/.a/=ra', '/dup/=rd', '(default /n/ /c/ "none")=rn', '/nosuch/=rx']
+           '/B/=rb', '/.a/=ra', '/dup/=rd', '(default /n/ /c/ "none")=rn', '/nosuch/=rx',
+           # boolean functions on arguments that are not all booleans (nothing, not false) in changing patterns from record to record
+           '(and .flag (= .a 1) .b)=an', '(or .flag .k (= .a 2))=orr', '(and (= .a 1) .flag)=an2', '(xor .flag (= .a 1))=xr', '(not .flag)=nf']
 SORTS = ['.a', '.b=desc', '.k=ASC', '.a=DESC', '.k', '(size .arr)=Desc', '.b', '/B/', '/.a/=desc', '/n/']
 GROUPS = ['.k', '(? (= .a 1) "one" "rest")', '.b', '(map .arr .k)']
 SPLITS = ['.arr', '(filter .arr (= .k "x"))', '[10, 20]', '(? (object? .) .arr (push [] . "s"))', '(default .arr [1])']
